@@ -205,6 +205,10 @@ CURATED = [
 
 
 # literals around CPython's 4300-digit limit for int <-> text conversion
+# a coefficient times a power whose base is not a plain variable (factorial, function, group, negation, constant): how the
+# product is printed (compactly as 4x^2, or with an explicit operator) decides whether the text reads back as the same tree
+COEF_POWER_FORMS = ["%s * %s^%s" % (c, u, e) for c in ("2", "0.5", "12") for u in ("3!", "sgn(x)", "(-x)", "(x + 1)", "x", "4", "(2x)", "y", "(3!)", "sgn(x)!"[:6])
+                    for e in ("x", "2", "(y + 1)", "-1")] + ["2 * 3!", "2 * 3! * x", "4 * sgn(x)", "x * 3!^2", "2 * -3!^2", "2 * (3!^x)^2", "7 * 2^3!", "3!^x * 2", "2sgn(x)^2", "2(3!)^x"]
 LONG_LITERALS = ["9" * 4301 + "x + 1", "2 * " + "7" * 4400, "4x^" + "1" * 4305, "x + " + "12" * 600, "8" * 1000 + " - 1"]
 # exactly at the limit (read correctly by the pinned code); the reference grammar needs ~90 s per such text, so thorough tier only
 LONG_LITERALS_AT_LIMIT = ["1" + "0" * 4299, "x + " + "12" * 2150, LIFTED + "9" * 4301 + "x + 1", LIFTED + "2 * " + "7" * 4400]
@@ -275,7 +279,7 @@ def domain(ctx, res):
                 texts.append(render(substitute(s, m), 1))
     n2 = len(texts)
     from . import rewrite
-    texts += CURATED + LONG_LITERALS + ([] if ctx.quick else LONG_LITERALS_AT_LIMIT) + chains(ctx) + soups(ctx, sentences)
+    texts += CURATED + COEF_POWER_FORMS + LONG_LITERALS + ([] if ctx.quick else LONG_LITERALS_AT_LIMIT) + chains(ctx) + soups(ctx, sentences)
     texts += [t for t in rewrite.big_count_prints() if isinstance(t, str)]          # 60..170 function calls / 30..85 parenthesised products in one text
     seen = set()
     uniq = []
